@@ -94,11 +94,21 @@ def _spring_damper_dof_passive(
   jnttype = jnt_type[jntid]
   stiffness = jnt_stiffness[worldid % jnt_stiffness.shape[0], jntid]
   spoly = jnt_stiffnesspoly[worldid % jnt_stiffnesspoly.shape[0], jntid]
-  damping = dof_damping[worldid % dof_damping.shape[0], dofid]
-  dpoly = dof_dampingpoly[worldid % dof_dampingpoly.shape[0], dofid]
+  ndof = int(1)
+  if jnttype == JointType.FREE:
+    ndof = 6
+  elif jnttype == JointType.BALL:
+    ndof = 3
 
   has_stiffness = (stiffness != 0.0 or spoly[0] != 0.0 or spoly[1] != 0.0) and not (opt_disableflags & DisableBit.SPRING)
-  has_damping = (damping != 0.0 or dpoly[0] != 0.0 or dpoly[1] != 0.0) and not (opt_disableflags & DisableBit.DAMPER)
+  # damping is a per-dof quantity: a joint is damped if any of its dofs is
+  has_damping = bool(False)
+  if not (opt_disableflags & DisableBit.DAMPER):
+    for i in range(ndof):
+      damping_i = dof_damping[worldid % dof_damping.shape[0], dofid + i]
+      dpoly_i = dof_dampingpoly[worldid % dof_dampingpoly.shape[0], dofid + i]
+      if damping_i != 0.0 or dpoly_i[0] != 0.0 or dpoly_i[1] != 0.0:
+        has_damping = True
 
   if not has_stiffness:
     if jnttype == JointType.FREE:
@@ -163,6 +173,8 @@ def _spring_damper_dof_passive(
     if has_damping:
       for i in range(6):
         v = qvel_in[worldid, dofid + i]
+        damping = dof_damping[worldid % dof_damping.shape[0], dofid + i]
+        dpoly = dof_dampingpoly[worldid % dof_dampingpoly.shape[0], dofid + i]
         qfrc_damper_out[worldid, dofid + i] = -v * util_misc._poly_force(damping, dpoly, v, 1)
 
   elif jnttype == JointType.BALL:
@@ -192,6 +204,8 @@ def _spring_damper_dof_passive(
     if has_damping:
       for i in range(3):
         v = qvel_in[worldid, dofid + i]
+        damping = dof_damping[worldid % dof_damping.shape[0], dofid + i]
+        dpoly = dof_dampingpoly[worldid % dof_dampingpoly.shape[0], dofid + i]
         qfrc_damper_out[worldid, dofid + i] = -v * util_misc._poly_force(damping, dpoly, v, 1)
 
   else:  # mjJNT_SLIDE, mjJNT_HINGE
@@ -203,6 +217,8 @@ def _spring_damper_dof_passive(
     # damper
     if has_damping:
       v = qvel_in[worldid, dofid]
+      damping = dof_damping[worldid % dof_damping.shape[0], dofid]
+      dpoly = dof_dampingpoly[worldid % dof_dampingpoly.shape[0], dofid]
       qfrc_damper_out[worldid, dofid] = -v * util_misc._poly_force(damping, dpoly, v, 1)
 
 
